@@ -98,8 +98,12 @@ class Canonicalize(abc.RewriteRule):
 
         assert isinstance(node, self.CLASSES)
 
+        # only the direct statements of this region move up: walking deeper would
+        # also hoist the members of nested regions of the *other* kind out of them.
         detached_stmts = [
-            stmt for stmt in node.body.walk() if not isinstance(stmt, node_type)
+            stmt
+            for stmt in node.body.blocks[0].stmts
+            if not isinstance(stmt, node_type)
         ]
         has_done_something = False
         for stmt in detached_stmts:
